@@ -31,10 +31,12 @@ TRUSTED_BASE = [
     "`gf2Inv`, is since /repo 70adac4 literally the code's `_gf2_inverse` — no float step is left in state_to_graph); stabilizer_to_graph on every generating "
     "set of |G>; gauge independence; single-qubit gates; state round trip; Hilbert-space form U rho U^dagger = |G><G|)",
     "correspondence of Model/StateToGraph.lean with state_rep_conversion.py: exact comparison (graph, gate list, error class) on every generated input — testing, not proof",
-    "density -> graph: proved at the level of stabilizer groups (the pair group of |G> at (i, j) is the two-vertex graph state with an edge iff A[i,j]: "
-    "density_to_graph_pair_state_partial) and on exact 4x4 rational matrices (negativity 0 resp. 1/2: density_to_graph_pair_negativity); cited, not proved: "
-    "<0_M| rho_S |0_M> = 2^-n * sum of the restrictions of the X/Y-free elements, uniqueness of the Jordan decomposition; the floating-point parts "
-    "(dense matrices, eigenvalues, purity test) are compared numerically per input: project_and_remove and negativity of every pair against the two proved states",
+    "density -> graph: proved for every n — group level (density_to_graph_pair_state_partial) and Hilbert space (density_to_graph_project_and_remove: "
+    "project_and_remove, modelled as projector / trace normalisation / partial trace on 2^n x 2^n complex matrices, maps |G><G| to the graph state of the induced "
+    "pair; the trace of the projected matrix is 4/2^n, never 0) — and on exact 4x4 rational matrices (the two possible states entry by entry, negativity 0 resp. 1/2: "
+    "density_to_graph_pair_negativity, density_to_graph_edge_rule_partial); NOT proved: that the numpy code of project_and_remove / partial_trace / "
+    "bipartite_partial_transpose computes the modelled maps, uniqueness of the Jordan decomposition, float eigenvalues, purity test, closing np.allclose — "
+    "compared numerically per input: project_and_remove and negativity of every pair of every graph on <= 5 vertices against the two proved states",
     "harness dense reference (n <= 5) and independent signed-group canonicaliser",
 ]
 ASSUMPTIONS = [
